@@ -667,10 +667,22 @@ func literalsAreAssembledInSourceOrder(c *core.Ctx) {
 				n++
 				k++
 				bad := ""
+				countsUp := loopVar != nil
 				ast.Inspect(fs.Body, func(n2 ast.Node) bool {
 					as, ok := n2.(*ast.AssignStmt)
 					if !ok {
 						return true
+					}
+					// x = append(x, <popped>) in a loop that counts up: the list comes out in the order
+					// of popping (from-import then loads its modules last to first)
+					if countsUp && len(as.Rhs) == 1 {
+						if ce, ok := ast.Unparen(as.Rhs[0]).(*ast.CallExpr); ok {
+							if id, ok := ce.Fun.(*ast.Ident); ok && id.Name == "append" {
+								if _, isBuiltin := info.Uses[id].(*types.Builtin); isBuiltin {
+									bad = "appends what it pops to a list at " + p.Pos(as.Pos()) + ": the list is in the order of popping, the reverse of the source order"
+								}
+							}
+						}
 					}
 					for _, l := range as.Lhs {
 						ix, ok := ast.Unparen(l).(*ast.IndexExpr)
